@@ -37,7 +37,10 @@ def main(chk: core.Check, replay):
         return core.replay_generic(chk, replay)
     run_scheme_corpus(chk, "C05", {"explicit_euler", "generate"}, fams=[3, 4, 5] if chk.tier == "quick" else [1, 2, 3, 4, 5],
                       schemes=["explicit_euler"])
-    structural.run(chk, "C05")
+    # (layout leg: ONE generator asked for the Euler step under every argument order - the step must be
+    # states + dt*rhs whichever order the formals were asked in, and whatever was asked of that generator before)
+    structural.run(chk, "C05", layout=True,
+                   layout_only=lambda b: b.get("fn") == "explicit_euler" and b.get("tag") in ("arg-order", "arg-order-values"))
     # every backend: the C module (inputs are const arrays, compared after the call) and the jitted JAX module
     # called with JAX arrays (a donated buffer is a modified input)
     structural.run(chk, "C05", backend="c", quick_models=20, thorough_models=120)
